@@ -194,8 +194,16 @@ fn recovery_oracle(dir: &str, slate_id: Option<uuid::Uuid>, baseline: Option<[u6
 			let mut stored_errs = vec![];
 			for t in txs.iter() {
 				if t.stored_tx.is_some() {
-					if let Err(e) = wal.get_stored_tx(Some(t.id), t.tx_slate_id.as_ref()) {
-						stored_errs.push(format!("{:?}", e));
+					match wal.get_stored_tx(None, t.tx_slate_id.as_ref()) {
+						Err(e) => stored_errs.push(format!("{:?}", e)),
+						// "no stored transaction" although a (partially written) file is there: silent loss
+						Ok(None) => {
+							let f = format!("{}/saved_txs/{}", wal.data_dir(), t.stored_tx.clone().unwrap_or_default());
+							if std::path::Path::new(&f).exists() {
+								stored_errs.push(format!("SILENT-LOSS entry {} file {} ({} bytes)", t.id, t.stored_tx.clone().unwrap_or_default(), std::fs::metadata(&f).map(|m| m.len()).unwrap_or(0)));
+							}
+						}
+						Ok(Some(_)) => {}
 					}
 				}
 			}
@@ -206,7 +214,11 @@ fn recovery_oracle(dir: &str, slate_id: Option<uuid::Uuid>, baseline: Option<[u6
 				v.push((format!("query-panicked|{}", loc), format!("wallet {}: a query panicked after recovery at {}: {}", wi, loc, msg)));
 				continue;
 			}
-			Ok(_errs) => {}
+			Ok(errs) => {
+				for e in errs.iter().filter(|e| e.starts_with("SILENT-LOSS")) {
+					v.push(("stored-tx-partially-written-answered-as-absent".into(), format!("wallet {}: get_stored_tx answers 'none' for a log entry whose stored-transaction file exists but is incomplete: {}", wi, e)));
+				}
+			}
 		}
 		let outs = wal.all_outputs().unwrap_or_default();
 		let txs = wal.all_txs().unwrap_or_default();
@@ -524,7 +536,8 @@ pub fn run(a: &Args) {
 					match catch(|| tw.wallets[0].get_stored_tx(None, Some(&s1.id))) {
 						Err((loc, msg)) => rep.violation(&format!("C06|truncated-stored-tx-panics|{}", loc), &format!("get_stored_tx panicked on a stored transaction truncated to {} of {} bytes: {}", len, full.len(), msg), json!({"job":"c06","file":"grintx","length":len})),
 						Ok(Ok(Some(_))) => rep.violation("C06|truncated-stored-tx-accepted", &format!("a stored transaction truncated to {} of {} bytes was returned as valid (silent loss)", len, full.len()), json!({"job":"c06","file":"grintx","length":len})),
-						Ok(_) => rep.count("truncation:grintx-reported-as-error"),
+						Ok(Ok(None)) => rep.violation("C06|truncated-stored-tx-silently-missing", &format!("a stored transaction file truncated to {} of {} bytes is answered with 'no stored transaction' instead of an error (silent loss)", len, full.len()), json!({"job":"c06","file":"grintx","length":len})),
+						Ok(Err(_)) => rep.count("truncation:grintx-reported-as-error"),
 					}
 					rep.distinct(&("trunc-grintx", len));
 				}
